@@ -208,7 +208,10 @@ def _params(rng, cid, heavy=False):
     elif cid == "PPMD":
         if rng.chance(0.8):
             f["order"] = rng.randint(2, 32)
-            f["mem"] = rng.pick([11, 12, 16, 20, 24, "16", "1m", "64k", "4096b", "2m"] + ([26] if heavy else []))
+            # pyppmd crashes or corrupts streams when the model memory is small (known finding): such values stay in the
+            # mix, rarely, so that the wall-clock backstop is not what most PPMd runs end in
+            small = rng.chance(0.1)
+            f["mem"] = rng.pick([11, 12, 16, "64k", "4096b"]) if small else rng.pick([20, 24, "20", "1m", "2m", "16m"] + ([26] if heavy else []))
     elif cid == "DELTA":
         if rng.chance(0.7):
             f["dist"] = rng.pick([1, 2, 3, 4, 8, 16, 255, 256])
